@@ -99,11 +99,25 @@ def build_jobs(tier, seed, kf_on):
                 k += 1
             for v in dict.fromkeys(cand):
                 renamings.append(({c: v}, {}))
+        # columns the pipeline CREATES are user-chosen names too (C15: no user column can be captured by a temporary name): every internal name
+        for c in sorted(produced - set(all_cols)):
+            if f"'{c}'" not in src:
+                continue  # a default name the pipeline text does not spell out (concat_rows' source_name): renaming the text would not rename it
+            for v in cols_vocab:
+                renamings.append(({c: v}, {}))
         for t in tables:
             cand = tables_vocab if tier != "quick" else [tables_vocab[(k + i * 5) % len(tables_vocab)] for i in range(4)] + NEUTRAL_TABLES
             k += 1
             for v in dict.fromkeys(cand):
                 renamings.append(({}, {t: v}))
+        if len(tables) >= 2:
+            # two tables renamed at once to numbered internal names (the generator numbers its own views above the numbered table names it sees):
+            # ascending and descending numbers, same and different prefixes
+            prefixes = sorted({re.sub(r"_\d+$", "", v) for v in tables_vocab if re.search(r"_\d+$", v)})
+            pick = prefixes if tier != "quick" else [p for p in prefixes if p in ("extend", "natural_join", "concat_rows", "rename", "project")] or prefixes[:4]
+            for p in pick:
+                for (na, nb) in ((f"{p}_0", f"{p}_1"), (f"{p}_1", f"{p}_0"), ("t_0", f"{p}_1"), (f"{p}_2", "u_1"), ("t_1", f"{p}_2")):
+                    renamings.append(({}, {tables[0]: na, tables[1]: nb}))
         for cm, tm in renamings:
             src2 = rename_src(src, cm, tm)
             if progs.try_build(src2) is None:
